@@ -3,4 +3,5 @@ CONSTANTS
   Depth = 2
   Emit = FALSE
   Dev = {}
+  NestMode = "all"
 INVARIANTS InvLine InvFiles
